@@ -13,9 +13,10 @@ MANIFEST = dict(
          'method and __init__, real calls on a recording subclass, naming helpers, against the compiled model; plus a direct '
          'oracle computed from the pristine IR that judges the property on the real artefacts.',
     note='The theorems carry explicit hypotheses that the real generator does not establish (each has a reachable '
-         'counterexample, reported by the oracle as a failing input): parameters distinct and no Python keywords, module names '
+         'counterexample; the eleven signature families they produce on the real code are listed in KNOWN_FINDINGS.jsonl (ids c14-*), '
+         'each re-confirmed first on every run by a hand seed harness/specs/c14_<set>_*.stone): parameters distinct and no Python keywords, module names '
          'used by the body imported and not hidden by a parameter, no field type that is an alias of a nullable type, namespace '
-         'prefixes not prefixes of each other. Trusted: Lean kernel, translator, generators, CPython (call binding and scoping are '
+         'prefixes not prefixes of each other, no string default that pprint wraps. Trusted: Lean kernel, translator, generators, CPython (call binding and scoping are '
          'modelled and compared on every run), python_types for everything but the parameter order of __init__ and the route '
          'object names. Docstrings, -w/--auth-type and the _to_file twin of download routes are not judged (the twin is compared '
          'with the model only).',
@@ -35,7 +36,8 @@ def run(ck):
         '(C09 / C15); generated struct classes accept valid values (C08)',
         'struct chains are acyclic and field names are distinct along a chain (frontend, C01/C02)',
     ])
-    ck.note('not judged: specs python_types cannot generate or import (string defaults with blanks, ...), specs python_client '
+    ck.note('not judged: specs python_types cannot generate or import (union-tag route attributes of a namespace the route module '
+            'does not import), a route ERROR type without fields (docstring generation crashes), specs python_client '
             'refuses loudly (route argument of another kind, fmt_func name conflict inside a namespace), the _to_file twin')
     return ck.finish(rule=dp.RULE)
 
